@@ -464,7 +464,7 @@ func c10Scenarios(r *hx.Run) []hx.Scenario {
 					continue
 				}
 				out = append(out, hx.Scenario{Name: fmt.Sprintf("c10:race:%s-during-%s/bTrustsA=%v", op, when, bt), Body: c10RaceBody(op, when, bt), Bounds: simrt.B(pb, 0, 0),
-					Cfg: simrt.Config{MaxSteps: 400000, BranchAfterMark: true, BranchOnly: []string{"user"}}})
+					Cfg: simrt.Config{MaxSteps: 400000, BranchAfterMark: true, BranchOnly: []string{"user", "prepareConnectionInitation", "http.serve"}}})
 			}
 		}
 	}
@@ -515,11 +515,12 @@ func c10Main(r *hx.Run) {
 	viol := hx.GConfirm(sum, ms)
 	cov := sum.Coverage()
 	// S part
+	r.EnsureBudget(60 * time.Second)
 	hx.SetWorkerMode("s")
 	scens := c10Scenarios(r)
 	ss := hx.ExploreAll(r, scens, false, 0)
 	for k := range ss.Found {
-		if !strings.HasPrefix(k, "C10|") && !strings.HasPrefix(k, "panic|") && !strings.HasPrefix(k, "engine|") {
+		if !strings.HasPrefix(k, "C10|") && !strings.HasPrefix(k, "panic|") && !hx.KeptKey(k) {
 			delete(ss.Found, k)
 		}
 	}
